@@ -179,6 +179,7 @@ def invariant_for(eng, s, it, st):
     idx_name = '__idx%d' % k
     # initiation
     st.env[idx_name] = lo
+    run_ghosts(eng, k, st, before=True)
     invs, _ = eval_invariants(eng, s, st)
     for label, cond in invs:
         eng.oblige('inv-init', 'L%d.%s' % (k, label), st, cond)
@@ -222,13 +223,16 @@ def invariant_for(eng, s, it, st):
         yield st_x, None
 
 
-def run_ghosts(eng, k, st):
-    """ghost(after_loop=k, lambda: <lemma applications>) clauses: premises become obligations, conclusions are assumed"""
-    for cl in eng.ghosts.get(k, []):
+def run_ghosts(eng, k, st, before=False):
+    """ghost(after_loop=k, lambda: <lemma applications>) clauses: premises become obligations, conclusions are assumed;
+    ghost(before_loop=k, ...) runs where the loop is entered (facts proved there are framed by the loop: they may only mention values
+    the loop does not assign or mutate -- anything else is havocked after them and the fact no longer speaks about it)"""
+    for cl in eng.ghosts.get(('before', k) if before else k, []):
         lam = cl['args'][0]
-        saved_funcs, saved_mode = eng.spec_funcs, eng.ghost_mode
+        saved_funcs, saved_mode, saved_spec = eng.spec_funcs, eng.ghost_mode, eng.spec_mode
         eng.spec_funcs = dict(eng.inv_funcs)
         eng.ghost_mode = True
+        eng.spec_mode = True          # a ghost clause is specification text: its terms are formulas, not code with safety obligations
         try:
             for v, st1 in calls.call_lambda(eng, FnV('lambda', '<ghost>', lam.node, {}), [], st):
                 if st1 is not st:
@@ -238,7 +242,7 @@ def run_ghosts(eng, k, st):
                         st.heap.setdefault(oid, o)
                 break
         finally:
-            eng.spec_funcs, eng.ghost_mode = saved_funcs, saved_mode
+            eng.spec_funcs, eng.ghost_mode, eng.spec_mode = saved_funcs, saved_mode, saved_spec
 
 
 def ex_while(eng, s, st):
